@@ -2,22 +2,26 @@
 What a call of the decoder model leaves in the bit buffer. The one-byte-at-a-time model pulls a
 byte only when the pending read needs it, so between calls the buffer holds fewer than 8 bits
 unless the call stopped starved inside a read that needs more bits than are buffered (`Hungry`), or
-the stream is already doomed by an unassigned code (`Doomed`). Inside a call the buffered whole
-bytes were all pulled by this call (`Q`), so the give-back of read-ahead bytes at the end of the
-last block and at the exit is never capped by the start of the chunk. This is what makes a call on
-a later chunk behave exactly like the continuation of a call on the whole input
+the stream is already doomed by an unassigned code (`Doomed`). So the give-back of read-ahead bytes
+at the end of the last block and at the exit of a call never has anything to give back, and a call
+on a later chunk behaves exactly like the continuation of a call on the whole input
 (`Lemmas/CoreCalls`). No property statements here.
 -/
 import MinizProof.Lemmas.CoreShift
 import MinizProof.Lemmas.CoreGrow
+import MinizProof.Lemmas.ClenShallow
 set_option maxRecDepth 100000
 namespace Model.Core
 open Spec
 
 /-- the bit buffer holds nothing above its `numBits` bits -/
 def B (c : Ctx) : Prop := c.r.bitBuf < 2 ^ c.r.numBits
-/-- every whole byte in the bit buffer was pulled by this call -/
-def Q (c : Ctx) : Prop := c.r.numBits < 8 * c.inPos + 8
+/-- no whole byte is buffered -/
+def Q (c : Ctx) : Prop := c.r.numBits < 8
+/-- the code-length code is decided by 7 bits, and its lengths are 3-bit values -/
+def CS (r : Regs) : Prop :=
+  (∀ buf m, 7 ≤ m → decodeBuf r.clenCode buf m ≠ .short) ∧ (∀ i, r.clenLens.getD i 0 ≤ 7)
+def BC (c : Ctx) : Prop := B c ∧ CS c.r
 
 theorem B_pull {c : Ctx} (h : B c) (b : UInt8) : B (pull c b) := by
   have hb8 : b.toNat < 2 ^ 8 := b.toNat_lt
@@ -154,57 +158,89 @@ theorem readBitsAux_B (inp : Array UInt8) (amount : Nat) : ∀ (fuel : Nat) (c :
     · rw [if_neg hlt]
       exact B_shift h (by omega)
 
+theorem readBitsAux_N8 (inp : Array UInt8) (amount : Nat) : ∀ (fuel : Nat) (c : Ctx), c.r.numBits < amount + 8 →
+    ∀ v, (readBitsAux inp amount fuel c).2 = some v → (readBitsAux inp amount fuel c).1.r.numBits < 8 := by
+  intro fuel
+  induction fuel with
+  | zero => intro c _ v hv; simp [readBitsAux] at hv
+  | succ fuel ih =>
+    intro c h v hv
+    unfold readBitsAux at hv ⊢
+    by_cases hlt : c.r.numBits < amount
+    · rw [if_pos hlt] at hv ⊢
+      cases hb : inp[c.inPos]? with
+      | none => rw [hb] at hv; simp at hv
+      | some b =>
+        rw [hb] at hv
+        exact ih (pull c b) (by show c.r.numBits + 8 < amount + 8; omega) v hv
+    · rw [if_neg hlt]
+      show c.r.numBits - amount < 8
+      omega
+
+theorem readBitsAux_val (inp : Array UInt8) (amount : Nat) : ∀ (fuel : Nat) (c : Ctx) (v : Nat),
+    (readBitsAux inp amount fuel c).2 = some v → v < 2 ^ amount := by
+  intro fuel
+  induction fuel with
+  | zero => intro c v hv; simp [readBitsAux] at hv
+  | succ fuel ih =>
+    intro c v hv
+    unfold readBitsAux at hv
+    by_cases hlt : c.r.numBits < amount
+    · rw [if_pos hlt] at hv
+      cases hb : inp[c.inPos]? with
+      | none => rw [hb] at hv; simp at hv
+      | some b => rw [hb] at hv; exact ih _ v hv
+    · rw [if_neg hlt] at hv
+      simp only [Option.some.injEq] at hv
+      rw [← hv]
+      exact Nat.mod_lt _ (Nat.two_pow_pos _)
+
+theorem readBits_val (inp : Array UInt8) (amount : Nat) (c : Ctx) (v : Nat)
+    (h : (readBits inp amount c).2 = some v) : v < 2 ^ amount := readBitsAux_val inp amount _ c v h
+
 theorem readBits_I {inp : Array UInt8} {c : Ctx} (hle : c.inPos ≤ inp.size) (amount : Nat) (hB : B c)
-    (h : c.r.numBits < amount ∨ c.r.numBits < 8 * c.inPos + 8 + amount) :
+    (h : c.r.numBits < amount + 8) :
     ReadOK inp c (readBits inp amount c).1 ∧ B (readBits inp amount c).1 ∧
     ((readBits inp amount c).2 = none → (readBits inp amount c).1.r.numBits < amount) ∧
     (∀ v, (readBits inp amount c).2 = some v → Q (readBits inp amount c).1) := by
-  obtain ⟨h1, h2, h3⟩ := readBits_spec inp amount c hle
-  refine ⟨h1, readBitsAux_B inp amount _ c hB, fun hn => (h2 hn).2.1, fun v hv => ?_⟩
-  have a := h3 v hv
-  have lo := h1.inLo
-  unfold Q
-  rcases h with h | h <;> omega
+  obtain ⟨h1, h2, _⟩ := readBits_spec inp amount c hle
+  exact ⟨h1, readBitsAux_B inp amount _ c hB, fun hn => (h2 hn).2.1, fun v hv => readBitsAux_N8 inp amount _ c h v hv⟩
 
-/-- `decodeHuff` under the buffer discipline. Entry: only bits of this call's bytes are buffered,
-    or the buffered bits are known not to hold a complete code. A starved decode leaves such a
-    buffer again (or an empty one); a decoded symbol leaves only bits of this call's bytes, except
-    after an unassigned pattern (symbol 286), where at most 14 older bits may remain. -/
+/-- `decodeHuff` under the buffer discipline. Entry: fewer than 8 bits are buffered, or the
+    buffered bits are known not to hold a complete code. A starved decode leaves such a buffer
+    again; a decoded symbol leaves fewer than 8 bits, except after an unassigned pattern (symbol
+    286), where fewer than 8 bits beyond an incomplete code (or beyond nothing) may remain. -/
 theorem decodeHuffAux_I (inp : Array UInt8) (code : Code) : ∀ (fuel : Nat) (c : Ctx),
     c.inPos ≤ inp.size → inp.size - c.inPos < fuel → B c →
-    (Q c ∨ ∃ m, m ≤ c.r.numBits ∧ decodeBuf code c.r.bitBuf m = .short ∧ c.r.numBits ≤ m + 8 * c.inPos) →
+    (Q c ∨ ∃ m, m ≤ c.r.numBits ∧ (m = 0 ∨ decodeBuf code c.r.bitBuf m = .short) ∧ c.r.numBits ≤ m + 8) →
     let p := decodeHuffAux inp code fuel c
     B p.1 ∧
     (p.2 = none → p.1.r.numBits < 8 ∨ decodeBuf code p.1.r.bitBuf p.1.r.numBits = .short) ∧
-    (∀ v, p.2 = some v → Q p.1 ∨ (v = 286 ∧ p.1.r.numBits < 8 * p.1.inPos + 15)) := by
+    (∀ v, p.2 = some v → Q p.1 ∨
+      (v = 286 ∧ ∃ m, (m = 0 ∨ ∃ buf, decodeBuf code buf m = .short) ∧ p.1.r.numBits < m + 8)) := by
   intro fuel
   induction fuel with
   | zero => intro c _ hf; omega
   | succ fuel ih =>
     intro c hle hf hB h
-    have hpull : ∀ b, inp[c.inPos]? = some b → decodeBuf code c.r.bitBuf c.r.numBits ≠ .sym 0 0 →
+    have hpull : ∀ b, inp[c.inPos]? = some b →
         (decodeBuf code c.r.bitBuf c.r.numBits = .short ∨ c.r.numBits = 0) →
         let p := decodeHuffAux inp code fuel (pull c b)
         B p.1 ∧
         (p.2 = none → p.1.r.numBits < 8 ∨ decodeBuf code p.1.r.bitBuf p.1.r.numBits = .short) ∧
-        (∀ v, p.2 = some v → Q p.1 ∨ (v = 286 ∧ p.1.r.numBits < 8 * p.1.inPos + 15)) := by
-      intro b hb _ hs
+        (∀ v, p.2 = some v → Q p.1 ∨
+          (v = 286 ∧ ∃ m, (m = 0 ∨ ∃ buf, decodeBuf code buf m = .short) ∧ p.1.r.numBits < m + 8)) := by
+      intro b hb hs
       have hok := pull_ok hb
       have hlt' : c.inPos < inp.size := by
         have := hok.inHi; simp [pull] at this; omega
       refine ih (pull c b) hok.inHi (by simp [pull]; omega) (B_pull hB b) ?_
-      have hpi : (pull c b).inPos = c.inPos + 1 := rfl
       have hpn : (pull c b).r.numBits = c.r.numBits + 8 := rfl
-      rcases h with hq | ⟨m, hm1, hm2, hm3⟩
-      · rcases hs with hs | hs
-        · right
-          refine ⟨c.r.numBits, by rw [hpn]; omega, ?_, ?_⟩
-          · rw [decodeBuf_pull hB b _ (Nat.le_refl _)]; exact hs
-          · rw [hpn, hpi]; unfold Q at hq; omega
-        · left; unfold Q; rw [hpn, hpi]; omega
-      · right
-        refine ⟨m, by rw [hpn]; omega, ?_, by rw [hpn, hpi]; omega⟩
-        rw [decodeBuf_pull hB b _ hm1]; exact hm2
+      right
+      rcases hs with hs | hs
+      · refine ⟨c.r.numBits, by rw [hpn]; omega, Or.inr ?_, by rw [hpn]; omega⟩
+        rw [decodeBuf_pull hB b _ (Nat.le_refl _)]; exact hs
+      · exact ⟨0, Nat.zero_le _, Or.inl rfl, by rw [hpn]; omega⟩
     unfold decodeHuffAux
     cases hd : decodeBuf code c.r.bitBuf c.r.numBits with
     | sym s len =>
@@ -213,11 +249,13 @@ theorem decodeHuffAux_I (inp : Array UInt8) (code : Code) : ∀ (fuel : Nat) (c 
       refine ⟨B_shift hB hl.2, by intro hn; simp at hn, ?_⟩
       intro v _
       left
-      show c.r.numBits - len < 8 * c.inPos + 8
+      show c.r.numBits - len < 8
       rcases h with hq | ⟨m, hm1, hm2, hm3⟩
       · unfold Q at hq; omega
-      · have := decodeBuf_short_sym hm1 hm2 hd
-        omega
+      · rcases hm2 with hm2 | hm2
+        · omega
+        · have := decodeBuf_short_sym hm1 hm2 hd
+          omega
     | invalid =>
       dsimp only
       by_cases h1 : c.r.numBits ≥ 1
@@ -226,19 +264,20 @@ theorem decodeHuffAux_I (inp : Array UInt8) (code : Code) : ∀ (fuel : Nat) (c 
         intro v hv
         simp only [Option.some.injEq] at hv
         rcases h with hq | ⟨m, hm1, hm2, hm3⟩
-        · left; show c.r.numBits - 1 < 8 * c.inPos + 8; unfold Q at hq; omega
+        · left; show c.r.numBits - 1 < 8; unfold Q at hq; omega
         · right
-          have := decodeBuf_short_bound hm2
-          exact ⟨hv.symm, by show c.r.numBits - 1 < 8 * c.inPos + 15; omega⟩
+          refine ⟨hv.symm, m, hm2.elim Or.inl (fun h => Or.inr ⟨_, h⟩), ?_⟩
+          show c.r.numBits - 1 < m + 8
+          omega
       · rw [if_neg h1]
         cases hb : inp[c.inPos]? with
         | none => exact ⟨hB, fun _ => Or.inl (by show c.r.numBits < 8; omega), by intro v hv; simp at hv⟩
-        | some b => exact hpull b hb (by rw [hd]; simp) (Or.inr (by omega))
+        | some b => exact hpull b hb (Or.inr (by omega))
     | short =>
       dsimp only
       cases hb : inp[c.inPos]? with
       | none => exact ⟨hB, fun _ => Or.inr hd, by intro v hv; simp at hv⟩
-      | some b => exact hpull b hb (by rw [hd]; simp) (Or.inl hd)
+      | some b => exact hpull b hb (Or.inl hd)
 
 theorem decodeHuff_I {inp : Array UInt8} {code : Code} {c : Ctx} (hle : c.inPos ≤ inp.size) (hB : B c)
     (h : Q c ∨ decodeBuf code c.r.bitBuf c.r.numBits = .short) :
@@ -246,10 +285,11 @@ theorem decodeHuff_I {inp : Array UInt8} {code : Code} {c : Ctx} (hle : c.inPos 
     ((decodeHuff inp code c).2 = none → (decodeHuff inp code c).1.r.numBits < 8 ∨
         decodeBuf code (decodeHuff inp code c).1.r.bitBuf (decodeHuff inp code c).1.r.numBits = .short) ∧
     (∀ v, (decodeHuff inp code c).2 = some v → Q (decodeHuff inp code c).1 ∨
-        (v = 286 ∧ (decodeHuff inp code c).1.r.numBits < 8 * (decodeHuff inp code c).1.inPos + 15)) := by
+        (v = 286 ∧ ∃ m, (m = 0 ∨ ∃ buf, decodeBuf code buf m = .short) ∧
+          (decodeHuff inp code c).1.r.numBits < m + 8)) := by
   obtain ⟨h1, _, _⟩ := decodeHuff_spec inp code c hle
   have := decodeHuffAux_I inp code (inp.size - c.inPos + 1) c hle (by omega) hB
-    (h.elim Or.inl fun hs => Or.inr ⟨c.r.numBits, Nat.le_refl _, hs, by omega⟩)
+    (h.elim Or.inl fun hs => Or.inr ⟨c.r.numBits, Nat.le_refl _, Or.inr hs, by omega⟩)
   exact ⟨h1, this.1, this.2.1, this.2.2⟩
 
 /-! ### The invariant -/
@@ -269,21 +309,18 @@ def Doomed (c : Ctx) : Prop :=
   ((c.r.state = sWriteSymbol ∨ c.r.state = sHuffDecodeOuterLoop1) ∧ c.r.counter = 286) ∨ sDoneForever < c.r.state
 /-- after an unassigned code-length code: the pending 7-bit read removes the older bits -/
 def Pend7 (c : Ctx) : Prop :=
-  c.r.state = sReadExtraBitsCodeSize ∧ c.r.numExtra = 7 ∧ 7 ≤ c.r.numBits ∧ c.r.numBits < 8 * c.inPos + 15
+  c.r.state = sReadExtraBitsCodeSize ∧ c.r.numExtra = 7 ∧ c.r.numBits < 15
 /-- states that read whole bytes straight from the input have an empty bit buffer -/
 def Z (c : Ctx) : Prop :=
   ((c.r.state = sReadZlibCmf ∨ c.r.state = sReadZlibFlg ∨ c.r.state = sRawMemcpy2) → c.r.numBits = 0) ∧
   (c.r.state = sRawMemcpy1 → c.r.counter = 0 ∨ c.r.numBits = 0)
 
-/-- inside a call -/
-def I (c : Ctx) : Prop := B c ∧ Z c ∧ (Q c ∨ Hungry c ∨ Doomed c ∨ Pend7 c)
-/-- between calls (independent of the input cursor) -/
-def Bnd (r : Regs) : Prop :=
-  B ⟨r, 0, 0⟩ ∧ Z ⟨r, 0, 0⟩ ∧ (r.numBits < 8 ∨ Hungry ⟨r, 0, 0⟩ ∨ Doomed ⟨r, 0, 0⟩)
+/-- The buffer discipline (it does not mention the cursors, so it holds across calls as it stands). -/
+def I (c : Ctx) : Prop := BC c ∧ Z c ∧ (Q c ∨ Hungry c ∨ Doomed c ∨ Pend7 c)
+/-- the discipline as a predicate on the registers a call starts from -/
+def Bnd (r : Regs) : Prop := I ⟨r, 0, 0⟩
 
-theorem Bnd.toI {r : Regs} (h : Bnd r) (p : Nat) : I ⟨r, 0, p⟩ :=
-  ⟨h.1, h.2.1, h.2.2.elim (fun h => Or.inl (by unfold Q; show r.numBits < 8 * 0 + 8; omega))
-    (fun h => h.elim (fun h => Or.inr (Or.inl h)) (fun h => Or.inr (Or.inr (Or.inl h))))⟩
+theorem Bnd.toI {r : Regs} (h : Bnd r) (i p : Nat) : I ⟨r, i, p⟩ := h
 
 theorem Z_of {c : Ctx} {s : Nat} (hs : c.r.state = s)
     (h1 : (s = sReadZlibCmf ∨ s = sReadZlibFlg ∨ s = sRawMemcpy2) → c.r.numBits = 0)
@@ -302,7 +339,7 @@ theorem Z_plain {c : Ctx} {s : Nat} (hs : c.r.state = s) (hp : plain s) : Z c :=
   · exact absurd h hp.2.1
   · exact absurd h hp.2.2.1
 
-theorem I_plain {c : Ctx} (s : Nat) (hs : c.r.state = s) (hp : plain s) (hB : B c) (hQ : Q c) : I c :=
+theorem I_plain {c : Ctx} (s : Nat) (hs : c.r.state = s) (hp : plain s) (hB : BC c) (hQ : Q c) : I c :=
   ⟨hB, Z_plain hs hp, Or.inl hQ⟩
 
 /-- in a state that is not exceptional the invariant is `Q` -/
@@ -330,81 +367,88 @@ theorem I.q {c : Ctx} (h : I c) {s : Nat} (hs : c.r.state = s) (ho : ordinary s)
 /-- what a transition must leave behind -/
 def StepI (e : Env) : Step → Prop
   | .cont c' _ => I c'
-  | .fin st c' _ => B c' ∧ Z c' ∧
-      ((st = e.eoi ∧ (c'.r.numBits < 8 ∨ Hungry c' ∨ Doomed c')) ∨ (st ≠ e.eoi ∧ (Q c' ∨ Doomed c')))
+  | .fin st c' _ => BC c' ∧ Z c' ∧
+      ((st = e.eoi ∧ (Q c' ∨ Hungry c' ∨ Doomed c')) ∨ (st ≠ e.eoi ∧ (Q c' ∨ Doomed c')))
 
-theorem Q.read {c : Ctx} (h : Q c) (amount : Nat) : c.r.numBits < amount ∨ c.r.numBits < 8 * c.inPos + 8 + amount :=
-  Or.inr (by unfold Q at h; omega)
+theorem Q.read {c : Ctx} (h : Q c) (amount : Nat) : c.r.numBits < amount + 8 := by unfold Q at h; omega
+
+theorem CS.of_read {inp : Array UInt8} {c c1 : Ctx} (h : ReadOK inp c c1) (hc : CS c.r) : CS c1.r := by
+  rw [h.regs]; exact hc
+
+theorem BC.of_read {inp : Array UInt8} {c c1 : Ctx} (h : ReadOK inp c c1) (hc : BC c) (hB : B c1) : BC c1 :=
+  ⟨hB, CS.of_read h hc.2⟩
 
 variable {e : Env} {c : Ctx} {out : Array UInt8}
 
 /-- shape shared by the states that start with `readBits` (all of them plain states) -/
-theorem readBits_stepI {s : Nat} (hs : c.r.state = s) (hp : plain s) (hle : c.inPos ≤ e.inp.size) (hB : B c)
-    (amount : Nat) (hq : c.r.numBits < amount ∨ c.r.numBits < 8 * c.inPos + 8 + amount) (k : Ctx → Nat → Step)
-    (hnone : ∀ c1, ReadOK e.inp c c1 → c1.r.numBits < amount → (c1.r.numBits < 8 ∨ Hungry c1 ∨ Doomed c1))
-    (hk : ∀ c1 v, ReadOK e.inp c c1 → B c1 → Q c1 → StepI e (k c1 v)) :
+theorem readBits_stepI {s : Nat} (hs : c.r.state = s) (hp : plain s) (hle : c.inPos ≤ e.inp.size) (hB : BC c)
+    (amount : Nat) (hq : c.r.numBits < amount + 8) (k : Ctx → Nat → Step)
+    (hnone : ∀ c1, ReadOK e.inp c c1 → c1.r.numBits < amount → (Q c1 ∨ Hungry c1 ∨ Doomed c1))
+    (hk : ∀ c1 v, ReadOK e.inp c c1 → BC c1 → Q c1 → v < 2 ^ amount → StepI e (k c1 v)) :
     StepI e (match readBits e.inp amount c with
       | (c1, none) => .fin e.eoi c1 out
       | (c1, some v) => k c1 v) := by
-  obtain ⟨h1, h2, h3, h4⟩ := readBits_I (inp := e.inp) hle amount hB hq
+  obtain ⟨h1, h2, h3, h4⟩ := readBits_I (inp := e.inp) hle amount hB.1 hq
+  have hv := readBits_val e.inp amount c
   generalize readBits e.inp amount c = p at *
   obtain ⟨c1, o⟩ := p
   cases o with
-  | none => exact ⟨h2, Z_plain (h1.state.trans hs) hp, Or.inl ⟨rfl, hnone c1 h1 (h3 rfl)⟩⟩
-  | some v => exact hk c1 v h1 h2 (h4 v rfl)
+  | none => exact ⟨BC.of_read h1 hB h2, Z_plain (h1.state.trans hs) hp, Or.inl ⟨rfl, hnone c1 h1 (h3 rfl)⟩⟩
+  | some v => exact hk c1 v h1 (BC.of_read h1 hB h2) (h4 v rfl) (hv v rfl)
 
-theorem decodeHuff_stepI {s : Nat} (hs : c.r.state = s) (hp : plain s) (hle : c.inPos ≤ e.inp.size) (hB : B c)
+theorem decodeHuff_stepI {s : Nat} (hs : c.r.state = s) (hp : plain s) (hle : c.inPos ≤ e.inp.size) (hB : BC c)
     (code : Code) (hq : Q c ∨ decodeBuf code c.r.bitBuf c.r.numBits = .short) (k : Ctx → Nat → Step)
     (hnone : ∀ c1, ReadOK e.inp c c1 → decodeBuf code c1.r.bitBuf c1.r.numBits = .short → Hungry c1)
-    (hk : ∀ c1 v, ReadOK e.inp c c1 → B c1 → (Q c1 ∨ (v = 286 ∧ c1.r.numBits < 8 * c1.inPos + 15)) → StepI e (k c1 v)) :
+    (hk : ∀ c1 v, ReadOK e.inp c c1 → BC c1 →
+      (Q c1 ∨ (v = 286 ∧ ∃ m, (m = 0 ∨ ∃ buf, decodeBuf code buf m = .short) ∧ c1.r.numBits < m + 8)) →
+      StepI e (k c1 v)) :
     StepI e (match decodeHuff e.inp code c with
       | (c1, none) => .fin e.eoi c1 out
       | (c1, some v) => k c1 v) := by
-  obtain ⟨h1, h2, h3, h4⟩ := decodeHuff_I (inp := e.inp) (code := code) hle hB hq
+  obtain ⟨h1, h2, h3, h4⟩ := decodeHuff_I (inp := e.inp) (code := code) hle hB.1 hq
   generalize decodeHuff e.inp code c = p at *
   obtain ⟨c1, o⟩ := p
   cases o with
   | none =>
-    refine ⟨h2, Z_plain (h1.state.trans hs) hp, Or.inl ⟨rfl, ?_⟩⟩
+    refine ⟨BC.of_read h1 hB h2, Z_plain (h1.state.trans hs) hp, Or.inl ⟨rfl, ?_⟩⟩
     rcases h3 rfl with h | h
     · exact Or.inl h
     · exact Or.inr (Or.inl (hnone c1 h1 h))
-  | some v => exact hk c1 v h1 h2 (h4 v rfl)
+  | some v => exact hk c1 v h1 (BC.of_read h1 hB h2) (h4 v rfl)
 
-theorem initTree_I {c : Ctx} (hB : B c) (hQ : Q c) (l d : Array Nat) : I (initTree c l d) := by
+
+theorem initTree_I {c : Ctx} (hB : BC c) (hQ : Q c) (l d : Array Nat) : I (initTree c l d) := by
   unfold initTree
   (repeat' split)
-  · exact I_plain sReadLitlenDistTablesCodeSize rfl (by decide) hB hQ
+  · exact I_plain sReadLitlenDistTablesCodeSize rfl (by decide)
+      ⟨hB.1, ⟨fun buf m hm => decodeBuf_shallow _ hB.2.2 buf m hm, hB.2.2⟩⟩ hQ
   · exact I_plain sBadTotalSymbols rfl (by decide) hB hQ
   · exact I_plain sBadTotalSymbols rfl (by decide) hB hQ
   · exact I_plain sBadTotalSymbols rfl (by decide) hB hQ
   · exact I_plain sDecodeLitlen rfl (by decide) hB hQ
 
-theorem stStart_I : StepI e (stStart e c out) := by
+theorem stStart_I (hC : CS c.r) : StepI e (stStart e c out) := by
   unfold stStart
-  refine ⟨by show (0 : Nat) < 2 ^ 0; decide, ⟨fun _ => rfl, fun _ => Or.inl rfl⟩, Or.inl ?_⟩
-  show (0 : Nat) < 8 * c.inPos + 8
+  refine ⟨⟨by show (0 : Nat) < 2 ^ 0; decide, hC⟩, ⟨fun _ => rfl, fun _ => Or.inl rfl⟩, Or.inl ?_⟩
+  show (0 : Nat) < 8
   omega
 
 theorem stReadZlibCmf_I (hs : c.r.state = sReadZlibCmf) (hI : I c) : StepI e (stReadZlibCmf e c out) := by
   have hz : c.r.numBits = 0 := hI.2.1.1 (Or.inl hs)
+  have hQ : Q c := by unfold Q; omega
   unfold stReadZlibCmf
   cases e.inp[c.inPos]? with
-  | none => exact ⟨hI.1, hI.2.1, Or.inl ⟨rfl, Or.inl (by omega)⟩⟩
-  | some b =>
-    refine ⟨hI.1, Z_of (s := sReadZlibFlg) rfl (fun _ => hz) (fun h => absurd h (by decide)), Or.inl ?_⟩
-    show c.r.numBits < 8 * (c.inPos + 1) + 8
-    omega
+  | none => exact ⟨hI.1, hI.2.1, Or.inl ⟨rfl, Or.inl hQ⟩⟩
+  | some b => exact ⟨hI.1, Z_of (s := sReadZlibFlg) rfl (fun _ => hz) (fun h => absurd h (by decide)), Or.inl hQ⟩
 
 theorem stReadZlibFlg_I (hs : c.r.state = sReadZlibFlg) (hI : I c) : StepI e (stReadZlibFlg e c out) := by
   have hz : c.r.numBits = 0 := hI.2.1.1 (Or.inr (Or.inl hs))
+  have hQ : Q c := by unfold Q; omega
   unfold stReadZlibFlg
   cases e.inp[c.inPos]? with
-  | none => exact ⟨hI.1, hI.2.1, Or.inl ⟨rfl, Or.inl (by omega)⟩⟩
+  | none => exact ⟨hI.1, hI.2.1, Or.inl ⟨rfl, Or.inl hQ⟩⟩
   | some b =>
     dsimp only
-    have hQ : Q { c with r := { c.r with zHeader1 := b.toNat }, inPos := c.inPos + 1 } := by
-      show c.r.numBits < 8 * (c.inPos + 1) + 8; omega
     split
     · exact I_plain sBadZlibHeader rfl (by decide) hI.1 hQ
     · exact I_plain sReadBlockHeader rfl (by decide) hI.1 hQ
@@ -413,7 +457,7 @@ theorem stReadBlockHeader_I (hle : c.inPos ≤ e.inp.size) (hs : c.r.state = sRe
     StepI e (stReadBlockHeader e c out) := by
   unfold stReadBlockHeader
   refine readBits_stepI hs (by decide) hle hI.1 3 ((hI.q hs (by decide)).read 3) _
-    (fun c1 _ h => Or.inl (by omega)) fun c1 v h1 hB hQ => ?_
+    (fun c1 _ h => Or.inl (by unfold Q; omega)) fun c1 v h1 hB hQ _ => ?_
   dsimp only
   (repeat' split)
   · exact I_plain sBlockTypeNoCompression rfl (by decide) hB hQ
@@ -424,8 +468,9 @@ theorem stReadBlockHeader_I (hle : c.inPos ≤ e.inp.size) (hs : c.r.state = sRe
 theorem stBlockTypeNoCompression_I (hle : c.inPos ≤ e.inp.size) (hs : c.r.state = sBlockTypeNoCompression) (hI : I c) :
     StepI e (stBlockTypeNoCompression e c out) := by
   unfold stBlockTypeNoCompression
-  refine readBits_stepI hs (by decide) hle hI.1 _ ((hI.q hs (by decide)).read _) _
-    (fun c1 _ h => Or.inl (by omega)) fun c1 v h1 hB hQ => ?_
+  have hQ := hI.q hs (by decide)
+  refine readBits_stepI hs (by decide) hle hI.1 _ (hQ.read _) _
+    (fun c1 _ h => Or.inl (by unfold Q at hQ ⊢; omega)) fun c1 v h1 hB hQ _ => ?_
   exact I_plain sRawHeader rfl (by decide) hB hQ
 
 theorem stRawHeader_I (hle : c.inPos ≤ e.inp.size) (hs : c.r.state = sRawHeader) (hI : I c) :
@@ -436,16 +481,11 @@ theorem stRawHeader_I (hle : c.inPos ≤ e.inp.size) (hs : c.r.state = sRawHeade
   split
   · split
     · refine readBits_stepI hs (by decide) hle hI.1 8 (hQ.read 8) _
-        (fun c1 _ h => Or.inl h) fun c1 v h1 hB hQ1 => ?_
+        (fun c1 _ h => Or.inl h) fun c1 v h1 hB hQ1 _ => ?_
       exact I_plain sRawHeader (h1.state.trans hs) (by decide) hB hQ1
-    · rename_i h0
-      have hz : c.r.numBits = 0 := by omega
-      cases e.inp[c.inPos]? with
-      | none => exact ⟨hI.1, hI.2.1, Or.inl ⟨rfl, Or.inl (by omega)⟩⟩
-      | some b =>
-        refine I_plain sRawHeader hs (by decide) hI.1 ?_
-        show c.r.numBits < 8 * (c.inPos + 1) + 8
-        omega
+    · cases e.inp[c.inPos]? with
+      | none => exact ⟨hI.1, hI.2.1, Or.inl ⟨rfl, Or.inl hQ⟩⟩
+      | some b => exact I_plain sRawHeader hs (by decide) hI.1 hQ
   · (repeat' split)
     · exact I_plain sBadRawLength rfl (by decide) hI.1 hQ
     · exact I_plain sBlockDone rfl (by decide) hI.1 hQ
@@ -458,7 +498,7 @@ theorem stRawReadFirstByte_I (hle : c.inPos ≤ e.inp.size) (hs : c.r.state = sR
     StepI e (stRawReadFirstByte e c out) := by
   unfold stRawReadFirstByte
   refine readBits_stepI hs (by decide) hle hI.1 8 ((hI.q hs (by decide)).read 8) _
-    (fun c1 _ h => Or.inl h) fun c1 v h1 hB hQ => ?_
+    (fun c1 _ h => Or.inl h) fun c1 v h1 hB hQ _ => ?_
   exact I_plain sRawStoreFirstByte rfl (by decide) hB hQ
 
 theorem stRawStoreFirstByte_I (hs : c.r.state = sRawStoreFirstByte) (hI : I c) :
@@ -486,13 +526,20 @@ theorem stRawMemcpy1_I (hs : c.r.state = sRawMemcpy1) (hI : I c) : StepI e (stRa
 
 theorem stRawMemcpy2_I (hs : c.r.state = sRawMemcpy2) (hI : I c) : StepI e (stRawMemcpy2 e c out) := by
   have hz : c.r.numBits = 0 := hI.2.1.1 (Or.inr (Or.inr hs))
+  have hQ : Q c := by unfold Q; omega
   unfold stRawMemcpy2
   split
-  · dsimp only
-    refine ⟨hI.1, Z_of (s := sRawMemcpy1) rfl (fun h => absurd h (by decide)) (fun _ => Or.inr hz), Or.inl ?_⟩
-    show c.r.numBits < 8 * (c.inPos + _) + 8
-    omega
-  · exact ⟨hI.1, hI.2.1, Or.inl ⟨rfl, Or.inl (by omega)⟩⟩
+  · exact ⟨hI.1, Z_of (s := sRawMemcpy1) rfl (fun h => absurd h (by decide)) (fun _ => Or.inr hz), Or.inl hQ⟩
+  · exact ⟨hI.1, hI.2.1, Or.inl ⟨rfl, Or.inl hQ⟩⟩
+
+theorem getD_setIfInBounds_le {a : Array Nat} {j v b : Nat} (ha : ∀ i, a.getD i 0 ≤ b) (hv : v ≤ b) (i : Nat) :
+    (a.setIfInBounds j v).getD i 0 ≤ b := by
+  have := ha i
+  simp only [Array.getD_eq_getD_getElem?] at this ⊢
+  rw [Array.getElem?_setIfInBounds]
+  split
+  · split <;> simp <;> omega
+  · exact this
 
 theorem stReadTableSizes_I (hle : c.inPos ≤ e.inp.size) (hs : c.r.state = sReadTableSizes) (hI : I c) :
     StepI e (stReadTableSizes e c out) := by
@@ -505,11 +552,16 @@ theorem stReadTableSizes_I (hle : c.inPos ≤ e.inp.size) (hs : c.r.state = sRea
       have : c.r.counter = 0 ∨ c.r.counter = 1 ∨ c.r.counter = 2 := by omega
       rcases this with h | h | h <;> rw [h] <;> decide
     refine readBits_stepI hs (by decide) hle hI.1 _ (hQ.read _) _
-      (fun c1 _ h => Or.inl (by omega)) fun c1 v h1 hB hQ1 => ?_
+      (fun c1 _ h => Or.inl (by unfold Q; omega)) fun c1 v h1 hB hQ1 _ => ?_
     exact I_plain sReadTableSizes (h1.state.trans hs) (by decide) hB hQ1
-  · split
-    · exact I_plain sReadHufflenTableCodeSize rfl (by decide) hI.1 hQ
-    · exact I_plain sBadDistOrLiteralTableLength rfl (by decide) hI.1 hQ
+  · have hB' : BC { c with r := { c.r with clenLens := Array.replicate 19 0, counter := 0 } } :=
+      ⟨hI.1.1, ⟨hI.1.2.1, fun i => by
+        show (Array.replicate 19 0).getD i 0 ≤ 7
+        simp only [Array.getD_eq_getD_getElem?, Array.getElem?_replicate]
+        split <;> simp⟩⟩
+    split
+    · exact I_plain sReadHufflenTableCodeSize rfl (by decide) hB' hQ
+    · exact I_plain sBadDistOrLiteralTableLength rfl (by decide) hB' hQ
 
 theorem stReadHufflenTableCodeSize_I (hle : c.inPos ≤ e.inp.size) (hs : c.r.state = sReadHufflenTableCodeSize)
     (hI : I c) : StepI e (stReadHufflenTableCodeSize e c out) := by
@@ -518,8 +570,9 @@ theorem stReadHufflenTableCodeSize_I (hle : c.inPos ≤ e.inp.size) (hs : c.r.st
   dsimp only
   split
   · refine readBits_stepI hs (by decide) hle hI.1 3 (hQ.read 3) _
-      (fun c1 _ h => Or.inl (by omega)) fun c1 v h1 hB hQ1 => ?_
-    exact I_plain sReadHufflenTableCodeSize (h1.state.trans hs) (by decide) hB hQ1
+      (fun c1 _ h => Or.inl (by unfold Q; omega)) fun c1 v h1 hB hQ1 hv => ?_
+    refine I_plain sReadHufflenTableCodeSize (h1.state.trans hs) (by decide) ⟨hB.1, ⟨hB.2.1, ?_⟩⟩ hQ1
+    exact getD_setIfInBounds_le hB.2.2 (by have : (2 : Nat) ^ 3 = 8 := rfl; omega)
   · exact initTree_I (c := _) (by exact hI.1) (by exact hQ) _ _
 
 /-- in the code-length reading state the invariant is `Q` or a hungry code-length decode -/
@@ -571,15 +624,20 @@ theorem stReadLitlenDistTablesCodeSize_I (hle : c.inPos ≤ e.inp.size)
         · rename_i h16
           have hQ1 : Q c1 := hv.elim id fun h => by omega
           exact I_plain sBadCodeSizeDistPrevLookup rfl (by decide) hB hQ1
-        · rcases hv with hQ1 | ⟨hv, hlt15⟩
+        · rcases hv with hQ1 | ⟨hv, m, hm, hlt15⟩
           · exact I_plain sReadExtraBitsCodeSize rfl (by decide) hB hQ1
-          · by_cases hQ1 : Q c1
-            · exact I_plain sReadExtraBitsCodeSize rfl (by decide) hB hQ1
-            · refine ⟨hB, Z_plain (s := sReadExtraBitsCodeSize) rfl (by decide), Or.inr (Or.inr (Or.inr ⟨rfl, ?_, ?_, hlt15⟩))⟩
-              · subst hv; rfl
-              · unfold Q at hQ1
-                show 7 ≤ c1.r.numBits
-                omega
+          · -- the code-length code is decided by 7 bits: fewer than 7 + 8 bits are left
+            have hm6 : m ≤ 6 := by
+              rcases hm with hm | ⟨buf, hm⟩
+              · omega
+              · have := hI.1.2.1 buf m
+                by_cases h7 : 7 ≤ m
+                · exact absurd hm (this h7)
+                · omega
+            refine ⟨hB, Z_plain (s := sReadExtraBitsCodeSize) rfl (by decide), Or.inr (Or.inr (Or.inr ⟨rfl, ?_, ?_⟩))⟩
+            · subst hv; rfl
+            · show c1.r.numBits < 15
+              omega
   · have hQ : Q c := hcl.elim id fun h => absurd h.1 (by assumption)
     split
     · exact I_plain sBadCodeSizeSum rfl (by decide) hI.1 hQ
@@ -587,14 +645,14 @@ theorem stReadLitlenDistTablesCodeSize_I (hle : c.inPos ≤ e.inp.size)
 
 theorem stReadExtraBitsCodeSize_I (hle : c.inPos ≤ e.inp.size) (hs : c.r.state = sReadExtraBitsCodeSize) (hI : I c) :
     StepI e (stReadExtraBitsCodeSize e c out) := by
-  have hq : c.r.numBits < c.r.numExtra ∨ c.r.numBits < 8 * c.inPos + 8 + c.r.numExtra := by
+  have hq : c.r.numBits < c.r.numExtra + 8 := by
     obtain ⟨_, _, h⟩ := hI
     rcases h with h | h | h | h
     · exact h.read _
     · unfold Hungry HungryBits HungryLit HungryDist HungryClen at h
       rw [hs] at h
       rcases h with ⟨_, h⟩ | ⟨h, _⟩ | ⟨h, _⟩ | ⟨h, _⟩
-      · exact Or.inl h
+      · omega
       · exact absurd h (by decide)
       · exact absurd h (by decide)
       · exact absurd h (by decide)
@@ -605,9 +663,9 @@ theorem stReadExtraBitsCodeSize_I (hle : c.inPos ≤ e.inp.size) (hs : c.r.state
       · exact absurd h (by decide)
       · exact absurd h (by decide)
     · unfold Pend7 at h
-      right; omega
+      omega
   unfold stReadExtraBitsCodeSize
-  refine readBits_stepI hs (by decide) hle hI.1 _ hq _ ?_ fun c1 v h1 hB hQ1 => ?_
+  refine readBits_stepI hs (by decide) hle hI.1 _ hq _ ?_ fun c1 v h1 hB hQ1 _ => ?_
   · intro c1 h1 hlt
     refine Or.inr (Or.inl (Or.inl ⟨Or.inl (h1.state.trans hs), ?_⟩))
     rw [h1.regs]; exact hlt
@@ -615,15 +673,14 @@ theorem stReadExtraBitsCodeSize_I (hle : c.inPos ≤ e.inp.size) (hs : c.r.state
 
 /-- in a state whose only exception is a hungry `readBits` -/
 theorem I.bits (h : I c) {s : Nat} (hs : c.r.state = s)
-    (h1 : s = sReadExtraBitsLitlen ∨ s = sReadExtraBitsDistance) :
-    c.r.numBits < c.r.numExtra ∨ c.r.numBits < 8 * c.inPos + 8 + c.r.numExtra := by
+    (h1 : s = sReadExtraBitsLitlen ∨ s = sReadExtraBitsDistance) : c.r.numBits < c.r.numExtra + 8 := by
   obtain ⟨_, _, h⟩ := h
   rcases h with h | h | h | h
   · exact h.read _
   · unfold Hungry HungryBits HungryLit HungryDist HungryClen at h
     rw [hs] at h
     rcases h with ⟨_, h⟩ | ⟨h, _⟩ | ⟨h, _⟩ | ⟨h, _⟩
-    · exact Or.inl h
+    · omega
     all_goals (rcases h1 with h1 | h1 <;> (rw [h1] at h; exact absurd h (by decide)))
   · unfold Doomed at h
     rw [hs] at h
@@ -635,7 +692,7 @@ theorem I.bits (h : I c) {s : Nat} (hs : c.r.state = s)
 theorem stReadExtraBitsLitlen_I (hle : c.inPos ≤ e.inp.size) (hs : c.r.state = sReadExtraBitsLitlen) (hI : I c) :
     StepI e (stReadExtraBitsLitlen e c out) := by
   unfold stReadExtraBitsLitlen
-  refine readBits_stepI hs (by decide) hle hI.1 _ (hI.bits hs (Or.inl rfl)) _ ?_ fun c1 v h1 hB hQ1 => ?_
+  refine readBits_stepI hs (by decide) hle hI.1 _ (hI.bits hs (Or.inl rfl)) _ ?_ fun c1 v h1 hB hQ1 _ => ?_
   · intro c1 h1 hlt
     refine Or.inr (Or.inl (Or.inl ⟨Or.inr (Or.inl (h1.state.trans hs)), ?_⟩))
     rw [h1.regs]; exact hlt
@@ -644,7 +701,7 @@ theorem stReadExtraBitsLitlen_I (hle : c.inPos ≤ e.inp.size) (hs : c.r.state =
 theorem stReadExtraBitsDistance_I (hle : c.inPos ≤ e.inp.size) (hs : c.r.state = sReadExtraBitsDistance) (hI : I c) :
     StepI e (stReadExtraBitsDistance e c out) := by
   unfold stReadExtraBitsDistance
-  refine readBits_stepI hs (by decide) hle hI.1 _ (hI.bits hs (Or.inr rfl)) _ ?_ fun c1 v h1 hB hQ1 => ?_
+  refine readBits_stepI hs (by decide) hle hI.1 _ (hI.bits hs (Or.inr rfl)) _ ?_ fun c1 v h1 hB hQ1 _ => ?_
   · intro c1 h1 hlt
     refine Or.inr (Or.inl (Or.inl ⟨Or.inr (Or.inr (h1.state.trans hs)), ?_⟩))
     rw [h1.regs]; exact hlt
@@ -793,12 +850,11 @@ theorem stBlockDone_I (hs : c.r.state = sBlockDone) (hI : I c) : StepI e (stBloc
   dsimp only
   split
   · have hB' : ∀ (x nb' : Nat), x % 2 ^ nb' < 2 ^ nb' := fun x nb' => Nat.mod_lt _ (Nat.two_pow_pos _)
-    have hQ' : (c.r.numBits - c.r.numBits % 8) - 8 * min ((c.r.numBits - c.r.numBits % 8) / 8) c.inPos
-        < 8 * (c.inPos - min ((c.r.numBits - c.r.numBits % 8) / 8) c.inPos) + 8 := by
+    have hQ' : (c.r.numBits - c.r.numBits % 8) - 8 * min ((c.r.numBits - c.r.numBits % 8) / 8) c.inPos < 8 := by
       unfold Q at hQ; omega
     split
-    · exact I_plain sReadAdler32 rfl (by decide) (hB' _ _) hQ'
-    · exact I_plain sDoneForever rfl (by decide) (hB' _ _) hQ'
+    · exact I_plain sReadAdler32 rfl (by decide) ⟨hB' _ _, hI.1.2⟩ hQ'
+    · exact I_plain sDoneForever rfl (by decide) ⟨hB' _ _, hI.1.2⟩ hQ'
   · split
     · exact ⟨hI.1, hI.2.1, Or.inr ⟨bb_ne_eoi e, Or.inl hQ⟩⟩
     · exact I_plain sReadBlockHeader rfl (by decide) hI.1 hQ
@@ -811,23 +867,18 @@ theorem stReadAdler32_I (hle : c.inPos ≤ e.inp.size) (hs : c.r.state = sReadAd
   split
   · split
     · refine readBits_stepI hs (by decide) hle hI.1 8 (hQ.read 8) _
-        (fun c1 _ h => Or.inl h) fun c1 v h1 hB hQ1 => ?_
+        (fun c1 _ h => Or.inl h) fun c1 v h1 hB hQ1 _ => ?_
       exact I_plain sReadAdler32 (h1.state.trans hs) (by decide) hB hQ1
-    · rename_i h0
-      have hz : c.r.numBits = 0 := by omega
-      cases e.inp[c.inPos]? with
-      | none => exact ⟨hI.1, hI.2.1, Or.inl ⟨rfl, Or.inl (by omega)⟩⟩
-      | some b =>
-        refine I_plain sReadAdler32 hs (by decide) hI.1 ?_
-        show c.r.numBits < 8 * (c.inPos + 1) + 8
-        omega
+    · cases e.inp[c.inPos]? with
+      | none => exact ⟨hI.1, hI.2.1, Or.inl ⟨rfl, Or.inl hQ⟩⟩
+      | some b => exact I_plain sReadAdler32 hs (by decide) hI.1 hQ
   · exact I_plain sDoneForever rfl (by decide) hI.1 hQ
 
 /-- One transition keeps the buffer discipline. -/
 theorem step_I (g : Geo e c out) (hI : I c) : StepI e (step e c out) := by
   have hle := g.inLe
   by_cases hStart : c.r.state = sStart
-  · rw [step_Start hStart]; exact stStart_I
+  · rw [step_Start hStart]; exact stStart_I hI.1.2
   by_cases hReadBlockHeader : c.r.state = sReadBlockHeader
   · rw [step_ReadBlockHeader hReadBlockHeader]; exact stReadBlockHeader_I hle hReadBlockHeader hI
   by_cases hBlockTypeNoCompression : c.r.state = sBlockTypeNoCompression
@@ -889,9 +940,9 @@ theorem step_I (g : Geo e c out) (hI : I c) : StepI e (step e c out) := by
     exact ⟨hI.1, hI.2.1, Or.inr ⟨failed_ne_eoi e, Or.inr (Or.inr hF)⟩⟩
 
 /-- What a run leaves behind (`RunI`): the buffer is clean; a starved stop leaves fewer than 8 bits or
-    a hungry read; every other stop leaves only bytes pulled by this call, or a failure state. -/
+    a hungry read; every other stop leaves fewer than 8 bits, or a failure state. -/
 def RunI (e : Env) (st : Int) (c' : Ctx) : Prop :=
-  B c' ∧ Z c' ∧ ((st = e.eoi ∧ (c'.r.numBits < 8 ∨ Hungry c' ∨ Doomed c')) ∨ (st ≠ e.eoi ∧ (Q c' ∨ Doomed c')))
+  BC c' ∧ Z c' ∧ ((st = e.eoi ∧ (Q c' ∨ Hungry c' ∨ Doomed c')) ∨ (st ≠ e.eoi ∧ (Q c' ∨ Doomed c')))
 
 theorem run_I (e : Env) : ∀ (f : Nat) (c : Ctx) (out : Array UInt8), Geo e c out → I c →
     ∀ st c' out', run e f c out = (st, c', out') → st ≠ stModelError → RunI e st c' := by
